@@ -1,4 +1,5 @@
 import BrushVerif.Proofs.ParamOps
+import BrushVerif.Proofs.ParamSubst
 /-!
 # C06 — parameter-expansion operators compute bash's result for every value and operand
 
@@ -829,5 +830,326 @@ theorem reevaluation_stable (p : Param) (nounset : Bool) (m : Str → Bool) (op 
 example : (expandExpr (.named none) true (fun _ => false) (.test .assignDefault true ['w'])).assigned = some ['w'] ∧
     stateAfter (.named none) (expandExpr (.named none) true (fun _ => false) (.test .assignDefault true ['w'])) =
       .named (some ['w']) := by decide
+
+/-! ## pattern substitution `${v/p/r}` `${v//p/r}` `${v/#p/r}` `${v/%p/r}`
+
+Over `Model/ParamSubst.lean` (mirror of `replace_substring` + `fancy_regex::Regex::replacen` +
+`Matches::next_with`) against `Spec/ParamSubst.lean` (bash's `pat_subst`).
+Quantifiers: every regex engine `e` (any pattern language, any preference order), every matcher,
+every value, every replacement. -/
+
+section Subst
+open BrushVerif.ParamSubst BrushVerif.SubstSpec
+
+/-- A pattern that matches nowhere in the value leaves it alone — for all four forms, every
+engine and every replacement. -/
+theorem patsub_no_match_identity (e : Engine) (rep : Str → Str) (k : MatchKind) (s : Str)
+    (h : ∀ t, t <:+ s → e t = []) : replaceSubstring e rep k s = s := by
+  have hf : ∀ t, t <:+ s → firstAt e t = none := fun t ht => by simp [firstAt, h t ht]
+  have he : ∀ t, t <:+ s → endAt e t = none := fun t ht => by simp [endAt, h t ht]
+  cases k with
+  | first => simp [replaceSubstring, replaceOnce, findFrom_none_of_forall _ s hf]
+  | all => simp [replaceSubstring, replaceAll, replAllGo, findFrom_none_of_forall _ s hf]
+  | atStart => simp [replaceSubstring, hf s (List.suffix_refl _)]
+  | atEnd => simp [replaceSubstring, replaceOnce, findFrom_none_of_forall _ s he]
+
+example : replaceSubstring (fun t => if t.take 1 = ['z'] then [1] else []) (fun _ => ['X']) .all "abc".toList
+    = "abc".toList := by decide
+
+/-- `${v/#p/r}`: when the engine's first choice at offset 0 is the longest match, the result is
+the replacement followed by what is left of the value after its LONGEST prefix the pattern
+matches; the value itself when no prefix matches. -/
+theorem patsub_prefix_longest (e : Engine) (m : Str → Bool) (rep : Str → Str) (s : Str)
+    (h : firstAt e s = longestAt m s) :
+    (∃ k, k ≤ s.length ∧ m (s.take k) = true ∧ (∀ j, j ≤ s.length → m (s.take j) = true → j ≤ k) ∧
+        replaceSubstring e rep .atStart s = rep (s.take k) ++ s.drop k) ∨
+    ((∀ j, j ≤ s.length → m (s.take j) = false) ∧ replaceSubstring e rep .atStart s = s) := by
+  unfold longestAt at h
+  rcases longestGo_spec m s s.length with ⟨k, h1, h2, h3, h4⟩ | ⟨h1, h2⟩
+  · left; exact ⟨k, h2, h3, h4, by simp [replaceSubstring, h, h1]⟩
+  · right; exact ⟨h2, by simp [replaceSubstring, h, h1]⟩
+
+/-- `${v/%p/r}`: dually, the LONGEST suffix the pattern matches is replaced (when, at every
+offset, `re$` succeeds exactly where the pattern matches the rest of the value). -/
+theorem patsub_suffix_longest (e : Engine) (m : Str → Bool) (rep : Str → Str) (s : Str)
+    (h : ∀ t, t <:+ s → endAt e t = endMatcher m t) :
+    (∃ i, i ≤ s.length ∧ m (s.drop i) = true ∧ (∀ j, j < i → m (s.drop j) = false) ∧
+        replaceSubstring e rep .atEnd s = s.take i ++ rep (s.drop i)) ∨
+    ((∀ j, j ≤ s.length → m (s.drop j) = false) ∧ replaceSubstring e rep .atEnd s = s) := by
+  have hc := findFrom_congr _ _ s h
+  simp only [replaceSubstring, replaceOnce, hc]
+  cases hf : findFrom (endMatcher m) s with
+  | none =>
+    right
+    refine ⟨?_, rfl⟩
+    intro j hj
+    have := findFrom_none_spec _ _ hf j hj
+    unfold endMatcher at this
+    by_cases hm : m (s.drop j) = true
+    · simp [hm] at this
+    · simpa using hm
+  | some p =>
+    obtain ⟨i, k⟩ := p
+    left
+    obtain ⟨h1, h2, h3⟩ := findFrom_some_spec _ _ _ _ hf
+    unfold endMatcher at h2 h3
+    have hm : m (s.drop i) = true := by
+      by_cases hm : m (s.drop i) = true
+      · exact hm
+      · simp [hm] at h2
+    have hk : k = s.length - i := by simp [hm] at h2; omega
+    refine ⟨i, h1, hm, ?_, ?_⟩
+    · intro j hj
+      have := h3 j hj
+      by_cases hmj : m (s.drop j) = true
+      · simp [hmj] at this
+      · simpa using hmj
+    · subst hk
+      simp [List.take_of_length_le, List.drop_eq_nil_of_le, show s.length ≤ i + (s.length - i) by omega]
+
+example : replaceSubstring (fun t => if t = ['c'] then [1] else []) (fun _ => ['X']) .atEnd "abc".toList
+    = "abX".toList := by decide
+
+/-- `${v//p/r}` with a pattern that matches exactly the single characters of a set `S` is a
+`map` over the value: every character of `S` becomes the replacement (computed from that
+character), every other character stays. -/
+theorem patsub_all_single_char_map (e : Engine) (S : Char → Bool) (rep : Str → Str) (s : Str)
+    (h0 : firstAt e [] = none)
+    (h1 : ∀ c t, (c :: t) <:+ s → firstAt e (c :: t) = if S c then some 1 else none) :
+    replaceSubstring e rep .all s = s.flatMap (fun c => if S c then rep [c] else [c]) := by
+  simp only [replaceSubstring, replaceAll]
+  exact replAllGo_single _ S rep s h0 h1 _ s false (List.suffix_refl _) (by omega)
+
+example : replaceSubstring (fun t => match t with | c :: _ => if c = 'a' then [1] else [] | [] => [])
+    (fun m => '<' :: m ++ ['>']) .all "aba".toList = "<a>b<a>".toList := by decide
+
+/-- What the iterator does with an engine that reports the empty match at every position: the
+replacement goes in front of the value, after each of its characters — and once more at the very
+end (`n + 1` insertions for `n` characters; the loop terminates). -/
+theorem patsub_all_empty_matches (e : Engine) (r s : Str) (h : ∀ t, firstAt e t = some 0) :
+    replaceSubstring e (fun _ => r) .all s = r ++ s.flatMap (fun c => c :: r) := by
+  simp only [replaceSubstring, replaceAll]
+  exact replAllGo_empty _ r h s _ (by omega)
+
+/-- bash does not insert after the last character: brush differs from bash on every non-empty
+value whenever the pattern matches only the empty string (known finding
+`replace_empty_match_differs`; C06-12). -/
+def patsub_empty_match_full : Prop :=
+  ∀ (e : Engine) (m : Str → Bool) (r s : Str), (∀ t, firstAt e t = some 0) → (∀ t, m t = t.isEmpty) →
+    replaceSubstring e (fun _ => r) .all s = specReplace m (fun _ => r) .all s
+
+theorem patsub_empty_match_cex : ¬ patsub_empty_match_full := by
+  intro h
+  have := h (fun _ => [0]) (fun t => t.isEmpty) ['X'] ['b'] (fun _ => rfl) (fun _ => rfl)
+  revert this
+  decide
+
+/-- **Model = bash's semantics under a decidable guard**: the pattern does not match the empty
+string, and at every position of the value the engine's first choice is the longest match (and
+`re$` succeeds exactly where the pattern matches the rest).  Then all four forms compute bash's
+result, for every replacement function. -/
+theorem patsub_eq_spec_partial (e : Engine) (m : Str → Bool) (rep : Str → Str) (k : MatchKind) (s : Str)
+    (hne : m [] = false) (hg : agreeOn e m s = true) :
+    replaceSubstring e rep k s = specReplace m rep k s := by
+  obtain ⟨hfirst, hend⟩ := agreeOn_sound e m s hg
+  cases k with
+  | first =>
+    simp only [replaceSubstring, replaceOnce, specReplace, leftmostLongest_eq,
+      findFrom_congr _ _ s hfirst]
+    cases findFrom (longestAt m) s with
+    | none => rfl
+    | some p => rfl
+  | all =>
+    simp only [replaceSubstring, replaceAll, specReplace]
+    cases s with
+    | nil =>
+      have : longestAt m [] = none := by simp [longestAt, longestGo, hne]
+      simp [replAllGo, findFrom, hfirst [] (List.suffix_refl _), this, hne]
+    | cons c t =>
+      simp only [List.isEmpty_cons, Bool.false_eq_true, ↓reduceIte]
+      exact replAllGo_eq_spec e m rep _ hne hfirst _ _ false (List.suffix_refl _)
+  | atStart =>
+    simp only [replaceSubstring, specReplace, hfirst s (List.suffix_refl _)]
+    cases longestAt m s <;> rfl
+  | atEnd =>
+    simp only [replaceSubstring, replaceOnce, specReplace, findFrom_congr _ _ s hend, findFrom_endMatcher]
+    cases longestSuffixStart m s with
+    | none => rfl
+    | some i =>
+      simp [List.take_of_length_le, List.drop_eq_nil_of_le, show s.length ≤ i + (s.length - i) by omega]
+
+example : agreeOn (fun t => if t.take 1 = ['a'] then [1] else []) (fun t => t = ['a']) "banana".toList = true ∧
+    replaceSubstring (fun t => if t.take 1 = ['a'] then [1] else []) (fun _ => ['o']) .all "banana".toList
+      = "bonono".toList := by decide
+
+/-- At full strength — any engine that finds exactly the matches of the pattern, in whatever
+order it likes — the equation fails: a backtracking engine takes the first alternative that
+matches, bash the longest (known finding `replace_alternation_leftmost_first`; C06-11). -/
+def patsub_eq_spec_full : Prop :=
+  ∀ (e : Engine) (m : Str → Bool) (rep : Str → Str) (k : MatchKind) (s : Str),
+    (∀ t n, n ∈ e t ↔ n ≤ t.length ∧ m (t.take n) = true) →
+    replaceSubstring e rep k s = specReplace m rep k s
+
+/-- `@(?|??)` on `ab`: the engine answers `?` first. -/
+theorem patsub_eq_spec_cex : ¬ patsub_eq_spec_full := by
+  intro h
+  have := h (fun t => if 2 ≤ t.length then [1, 2] else if t.length = 1 then [1] else [])
+    (fun t => t.length == 1 || t.length == 2) (fun _ => ['X']) .first ['a', 'b'] (by
+      intro t n
+      simp only [List.length_take, Bool.or_eq_true, beq_iff_eq]
+      by_cases h2 : 2 ≤ t.length
+      · simp only [h2, ↓reduceIte, List.mem_cons, List.not_mem_nil, or_false]; omega
+      · by_cases h1 : t.length = 1
+        · simp [h1]; omega
+        · simp only [h2, h1, ↓reduceIte, List.not_mem_nil, false_iff]; omega)
+  revert this
+  decide
+
+/-! ### the replacement text -/
+
+/-- **Replacement text = bash's under a guard**: written inline and without an unquoted `&`, the
+text brush inserts is the text bash inserts, whatever was matched (`$` included: the replacement
+is not a regex template). -/
+theorem replacement_eq_spec_partial (r : List RAtom) (m : Str) (hamp : ∀ a ∈ r, a ≠ RAtom.amp) :
+    brushTpl true r = specRep r m := by
+  induction r with
+  | nil => rfl
+  | cons a r ih =>
+    have iha := ih (fun x hx => hamp x (List.mem_cons_of_mem _ hx))
+    cases a with
+    | amp => exact absurd rfl (hamp _ (List.mem_cons_self))
+    | lit c => simpa [brushTpl, specRep] using iha
+
+example : brushTpl true [.lit '$', .lit '0', .lit '&', .lit '\\'] = "$0&\\".toList := by decide
+
+/-- Whole operator: pattern guard and replacement guard together give bash's `${v/p/r}`. -/
+theorem patsub_word_eq_spec_partial (e : Engine) (m : Str → Bool) (r : List RAtom) (k : MatchKind) (s : Str)
+    (hne : m [] = false) (hg : agreeOn e m s = true) (hamp : ∀ a ∈ r, a ≠ RAtom.amp) :
+    patSub e (brushTpl true r) k s = specReplace m (specRep r) k s := by
+  have hrep : (fun _ : Str => brushTpl true r) = specRep r := by
+    funext mt; exact replacement_eq_spec_partial r mt hamp
+  unfold patSub
+  rw [hrep]
+  exact patsub_eq_spec_partial e m _ k s hne hg
+
+/-- Without the guard it fails: `&` is not the matched text (known finding
+`replace_ampersand_not_matched_text`; C06-19). -/
+def replacement_eq_spec_full : Prop :=
+  ∀ (r : List RAtom) (m : Str), brushTpl true r = specRep r m
+
+theorem replacement_amp_cex : ¬ replacement_eq_spec_full := by
+  intro h; have := h [.amp] ['b']; revert this; decide
+
+/-! ## case modification `${v^p}` `${v^^p}` `${v,p}` `${v,,p}` and `${v@U}` `${v@L}` `${v@u}` -/
+
+/-- `^^` (and `,,`, `@U`, `@L`) is idempotent for every case mapping whose images are fixed by
+the mapping — multi-character images included (`ß ↦ SS`). -/
+theorem casemod_all_idempotent (f : Char → Str) (hf : ∀ c, (f c).flatMap f = f c) (s : Str) :
+    caseAll f none (caseAll f none s) = caseAll f none s := by
+  simp only [caseAll, mapCase]
+  induction s with
+  | nil => rfl
+  | cons c t ih => simp only [List.flatMap_cons, List.flatMap_append, hf, ih]
+
+example : caseAll (fun c => if c = 'ß' then ['S', 'S'] else if c = 'a' then ['A'] else [c]) none "aßb".toList
+    = "ASSb".toList := by decide
+
+/-- `^` / `,` change at most the first character: the rest of the value and its length stay, for
+every mapping (also one to several characters: only the first character of the image is used)
+and every pattern. -/
+theorem casemod_first_changes_only_first (f : Char → Str) (a : Char → Bool) (s : Str) :
+    (caseFirst f a s).drop 1 = s.drop 1 ∧ (caseFirst f a s).length = s.length := by
+  cases s with
+  | nil => exact ⟨rfl, rfl⟩
+  | cons c t =>
+    simp only [caseFirst]
+    split
+    · split <;> simp
+    · simp
+
+/-- `,,` after `^^` is `,,` (for mappings where lowering an upper-cased character lowers the
+character — ASCII and every simple one-to-one mapping). -/
+theorem casemod_lower_after_upper (up low : Char → Str) (h : ∀ c, (up c).flatMap low = low c) (s : Str) :
+    caseAll low none (caseAll up none s) = caseAll low none s := by
+  simp only [caseAll, mapCase]
+  induction s with
+  | nil => rfl
+  | cons c t ih => simp only [List.flatMap_cons, List.flatMap_append, h, ih]
+
+example : (∀ c, ((fun c => if c = 'a' then ['A'] else [c]) c).flatMap (fun c => if c = 'A' then ['a'] else [c])
+    = (fun c => if c = 'A' then ['a'] else [c]) c) := by
+  intro c; by_cases h : c = 'a' <;> simp [h]
+
+/-- The pattern form only touches matching characters: when the regex finds exactly the single
+characters of the value that the pattern matches (the decidable guard `singleOn`), `${v^^p}`
+maps those characters and leaves every other one — bash's result. -/
+theorem casemod_eq_spec_partial (e : Engine) (m : Str → Bool) (g : Char → Char) (s : Str)
+    (hg : singleOn e m s = true) :
+    caseAll (fun c => [g c]) (some e) s = specCaseAll g (some m) s := by
+  simp only [singleOn, List.all_eq_true, List.mem_range] at hg
+  have h0 : firstAt e [] = none := by
+    have := hg s.length (by omega)
+    simpa using this
+  have h1 : ∀ c t, (c :: t) <:+ s → firstAt e (c :: t) = if m [c] then some 1 else none := by
+    intro c t ht
+    obtain ⟨i, hi, hd⟩ := suffix_eq_drop ht
+    have := hg i (by omega)
+    rw [← hd] at this
+    simpa using this
+  simp only [caseAll, specCaseAll, replaceAll]
+  rw [replAllGo_single _ (fun c => m [c]) _ s h0 h1 _ s false (List.suffix_refl _) (by omega)]
+  have key : ∀ l : Str, l.flatMap (fun c => if m [c] = true then mapCase (fun c => [g c]) [c] else [c]) =
+      l.map (fun c => if m [c] = true then g c else c) := by
+    intro l
+    induction l with
+    | nil => rfl
+    | cons d u ih =>
+      by_cases hm : m [d] = true
+      · simp [List.flatMap_cons, mapCase, hm]; simpa [mapCase] using ih
+      · simp [List.flatMap_cons, mapCase, hm]; simpa [mapCase] using ih
+  exact key s
+
+example : singleOn (fun t => match t with | c :: _ => if c = 'a' then [1] else [] | [] => []) (fun t => t = ['a'])
+    "aba".toList = true := by decide
+
+/-- Without the guard: a pattern of two characters is found inside the value and the whole match
+is mapped; bash tests single characters (known finding `casemod_pattern_matches_substrings`). -/
+def casemod_eq_spec_full : Prop :=
+  ∀ (e : Engine) (m : Str → Bool) (g : Char → Char) (s : Str),
+    (∀ t n, n ∈ e t ↔ n ≤ t.length ∧ m (t.take n) = true) →
+    caseAll (fun c => [g c]) (some e) s = specCaseAll g (some m) s
+
+theorem casemod_eq_spec_cex : ¬ casemod_eq_spec_full := by
+  intro h
+  have := h (fun t => if 2 ≤ t.length then [2] else []) (fun t => t.length == 2)
+    (fun c => if c = 'a' then 'A' else if c = 'b' then 'B' else c) ['a', 'b', 'c'] (by
+      intro t n
+      simp only [List.length_take, beq_iff_eq]
+      by_cases h2 : 2 ≤ t.length
+      · simp only [h2, ↓reduceIte, List.mem_cons, List.not_mem_nil, or_false]; omega
+      · simp only [h2, ↓reduceIte, List.not_mem_nil, false_iff]; omega)
+  revert this
+  decide
+
+/-- `${v@u}` on a value without whitespace capitalizes the first character only, as bash does. -/
+theorem capitalize_eq_spec_partial (g : Char → Char) (s : Str) (h : ∀ c ∈ s, isWs c = false) :
+    initialCaps (fun c => [g c]) s = specCapitalize g s := by
+  cases s with
+  | nil => rfl
+  | cons c t =>
+    simp [initialCaps, initialCapsGo, specCapitalize, h c (by simp),
+      initialCapsGo_no_ws _ t (fun d hd => h d (List.mem_cons_of_mem _ hd))]
+
+/-- With whitespace every word is capitalized (known finding `at_u_capitalizes_every_word`; C06-7). -/
+def capitalize_eq_spec_full : Prop :=
+  ∀ (g : Char → Char) (s : Str), initialCaps (fun c => [g c]) s = specCapitalize g s
+
+theorem capitalize_eq_spec_cex : ¬ capitalize_eq_spec_full := by
+  intro h
+  have := h (fun c => if c = 'a' then 'A' else if c = 'b' then 'B' else c) ['a', ' ', 'b']
+  revert this
+  decide
+
+end Subst
 
 end BrushVerif.C06
